@@ -165,6 +165,7 @@ class Engine:
         self.params = {}            # name -> vid
         self.cache = {}             # canonical cond key -> bool
         self.cache_ast = {}         # ast id -> (bool, ast)  (ast kept alive)
+        self.pz_cache = {}
         self.sqrt_memo = {}         # radicand key -> vid
         self.div_memo = {}          # (num key, den key) -> vid
         self.stats = Stats()
@@ -197,6 +198,11 @@ class Engine:
     def pz(self, p):
         if p._z is not None:
             return p._z
+        k = p.key()
+        z = self.pz_cache.get(k)
+        if z is not None:
+            p._z = z
+            return z
         terms = []
         for m, c in sorted(p.t.items()):
             f = None
@@ -217,6 +223,7 @@ class Engine:
         else:
             z = z3.Sum(terms)
         p._z = z
+        self.pz_cache[k] = z
         return z
 
     # ---- solver plumbing
@@ -248,7 +255,14 @@ class Engine:
             if res == 'sat':
                 self._last_model = s1.model()
         elif Engine.prefer_nlsat < 2:
-            r = self.solver.check(*extra)
+            timer = threading.Timer(self.timeout_ms / 1000.0 + 2.0, z3.main_ctx().interrupt)
+            timer.start()
+            try:
+                r = self.solver.check(*extra)
+            except z3.Z3Exception:
+                r = 'unknown'
+            finally:
+                timer.cancel()
             res = str(r)
             if res == 'sat':
                 self._last_model = self.solver.model()
@@ -576,15 +590,31 @@ def _wrap(p):
 
 
 class SymBool:
-    """a solver-level truth value.  bool() forks the path; & | ~ build formulas without forking"""
-    __slots__ = ('z', 'key')
+    """a solver-level truth value.  bool() forks the path; & | ~ build formulas without forking.
+    Atomic comparisons are lazy: the z3 term is only built on a cache miss / when used in a formula."""
+    __slots__ = ('_z', 'key', '_lazy')
 
-    def __init__(self, z, key=None):
-        self.z = z
+    def __init__(self, z, key=None, lazy=None):
+        self._z = z
         self.key = key
+        self._lazy = lazy
+
+    @property
+    def z(self):
+        if self._z is None:
+            p, op, neg = self._lazy
+            zp = ENG.pz(p)
+            z = (zp < 0) if op == '<' else ((zp <= 0) if op == '<=' else (zp == 0))
+            self._z = z3.Not(z) if neg else z
+        return self._z
 
     def __bool__(self):
-        return ENG.decide(self.z, self.key)
+        e = ENG
+        if self.key is not None and self.key in e.cache:
+            e.stats.branches += 1
+            e.stats.cache_hits += 1
+            return e.cache[self.key]
+        return e.decide(self.z, self.key)
 
     def __and__(self, o):
         return SymBool(z3.And(self.z, _bz(o)))
@@ -617,12 +647,9 @@ def _cmp(p, op):
     l = p.lead()
     if op == '==':
         pn = p.scale(1 / l)
-        key = ('==', pn.key(), True)
-        return SymBool(ENG.pz(pn) == 0, key)
+        return SymBool(None, ('==', pn.key(), True), (pn, '==', False))
     pn = p.scale(1 / _real_abs(l))
-    key = (op, pn.key(), True)
-    z = ENG.pz(pn)
-    return SymBool(z < 0 if op == '<' else z <= 0, key)
+    return SymBool(None, (op, pn.key(), True), (pn, op, False))
 
 
 class SymNum:
@@ -749,7 +776,7 @@ class SymNum:
         r = _cmp(s.p.add(q.neg()), '==')
         if isinstance(r, bool):
             return not r
-        return SymBool(z3.Not(r.z), ('==', r.key[1], False))
+        return SymBool(None, ('==', r.key[1], False), (r._lazy[0], '==', True))
 
     def __hash__(s):
         return 0
